@@ -26,10 +26,18 @@ class C12(Prop):
              "live configuration is the file's whatever the API did before (API edits are not persisted), an edit after it "
              "starts from the file's configuration, and the history refinement and read-your-write hold with file reloads "
              "interleaved; a file that does not load, or an accepted edit whose resources cannot be created, makes Core.run "
-             "leave its loop (terminal state; stated as observations). Validate is an arbitrary oracle. The model "
+             "leave its loop (terminal state; stated as observations). Validate is an arbitrary oracle. "
+             "READS are steps of the histories: a GET handler (global/get, "
+             "pathdefaults/get, paths/list, paths/get/name) works on a copy of the snapshot and writes into it (credential "
+             "redaction); for every endpoint and whatever it writes, a handler working on Conf.Clone() leaves the running "
+             "configuration unchanged and answers the running configuration with those writes, the history refinement holds "
+             "with GETs interleaved, and both memories that a cheaper copy would share are modelled with a refuted variant "
+             "each (path cells shared; a struct copy sharing the backing array of authInternalUsers: redacting it in place "
+             "overwrites the running passwords). The model "
              "is tied to the code by running random histories against a real Core (direct calls and real HTTP; the file is "
              "rewritten on disk and the real watcher delivers the signal) and comparing the configuration read back after "
-             "every step inside Coq.",
+             "every step inside Coq; the configuration compared is the RUNNING one, "
+             "read in-package with its credentials, after every edit, file reload and GET.",
         note="Trusted: Coq kernel+VM, the in-package driver and its canonicalisation (field = JSON key, value = canonical "
              "JSON text), Conf.Validate as an oracle (its verdict per step is what the real Validate answered; its "
              "normalisations of deprecated alias parameters are excluded from the generators), gin routing and net/http.",
@@ -38,7 +46,15 @@ class C12(Prop):
     rule = ("each case is a history of 12 random edits (global/pathdefaults/add/patch/replace/delete; names from a pool with "
             "existing, missing, regex, alias and invalid names; bodies with 0-4 fields, valid values, values Validate rejects, "
             "undecodable bodies, unknown fields) against a fresh real Core, 1/8 of the histories over the HTTP API; after "
-            "every edit the global fields, path defaults, optional paths and effective paths are read back. Every second "
+            "every edit the global fields, path defaults, optional paths and effective paths of the RUNNING configuration are "
+            "read in-package (credentials included). Initial configurations: 4 of 8 with authInternalUsers carrying plain, "
+            "sha256 and argon2 passwords, 2 of 8 with deprecated per-path / pathDefaults credentials (readPass, publishPass), "
+            "2 of 8 without credentials; global edits also replace the authInternalUsers list. GETs through the real "
+            "handlers are steps of every history (before the first edit, and after an edit or file reload: always over "
+            "HTTP histories - global/get, pathdefaults/get, paths/list and half of the time paths/get/name - and 0-3 random "
+            "endpoints otherwise; names existing and missing): each answer must equal the running configuration in every "
+            "field but the credential fields, and the running configuration read in-package after each GET must be what it "
+            "was before it. Every second "
             "history also rewrites the configuration file (rename into place; random global parameters, path defaults and "
             "paths; the file's configuration is computed by an independent conf.Load) at one random position, 1/8 of those "
             "at two (the second signal is deferred by the watcher for 1 s), waits for the real watcher's signal to be "
@@ -49,7 +65,9 @@ class C12(Prop):
     trusted_base = ["Coq 8.16.1 kernel + VM (vm_compute for cases)", "in-package Go driver zz_verif_c12_test.go",
                     "oracle: Conf.Validate (verdict shipped per step by the driver)",
                     "oracle: conf.Load of the file (the driver loads every generated file itself and ships the result)",
-                    "models Model/C12_ApiEdit.v, Model/C12_FileReload.v hand-written, tied by correspondence"]
+                    "models Model/C12_ApiEdit.v, Model/C12_FileReload.v, Model/C12_Reads.v hand-written, tied by correspondence",
+                    "what a GET redacts inside the credential fields (authInternalUsers, publishPass, readPass) is C07's "
+                    "subject: C12 compares the answers outside those fields and the running configuration in full"]
     assumptions = ["Conf.Validate does not modify non-deprecated parameters of the candidate (checked on every generated "
                    "edit by the correspondence run; deprecated alias parameters are not generated)",
                    "Core.run handles one configuration request at a time (single goroutine)",
